@@ -33,6 +33,15 @@ def run(ctx):
             pop.insert(0, (sum([["a", "+"] for _ in range(k)], [])[:-1] + ["+", "a", "a*"], list("+".join(["."] * k)) + list("+()")))
             pop.insert(0, (sum([["a", "a*", "+"] for _ in range(k)], [])[:-1], list("+".join(["()"] + [".."] * (k - 1)))))
         pop.insert(0, (["a", "+", "a*", "+", "a", "+", "a*"], list("(+)+.+.")))
+        # strand order with a period 2 <= p < n (A B A B, A B C A B C), symmetric and asymmetric structures
+        for unit, reps in ((["a", "b", "+", "b*", "+"], 2), (["a", "+", "b", "a*", "+"], 2), (["a", "+", "b", "+", "c", "+"], 2), (["a", "a*", "+", "b", "+"], 3)):
+            sq = (unit * reps)[:-1]
+            n_pos = [i for i, x in enumerate(sq) if x != "+"]
+            for st in ("".join("+" if x == "+" else "." for x in sq),):
+                pop.insert(0, (sq, list(st)))
+                if len(n_pos) >= 2:
+                    t = list(st); t[n_pos[0]] = "("; t[n_pos[-1]] = ")"
+                    pop.insert(0, (sq, t))
         reqs, cur = [], []
         for sq, st in pop:
             rots = gen_pil.rotations(sq, st)
